@@ -828,7 +828,7 @@ class FakeOS:
         if v is None:
             raise oserr(errno.ENOENT, path)
         return types.SimpleNamespace(f_blocks=v[0], f_bfree=v[1], f_bavail=v[2],
-                                     f_frsize=v[3], f_bsize=v[3], f_files=0,
+                                     f_frsize=v[3], f_bsize=v[4] if len(v) > 4 else v[3], f_files=0,
                                      f_ffree=0, f_favail=0, f_flag=0, f_namemax=255)
 
     def walk(self, top, **kw):
